@@ -658,8 +658,25 @@ def h_pair(regs, key):
     return (v & 0xFFFFFFFF, (v >> 32) & 0xFFFF)
 
 
-def h_elementwise_why(kind, a, c, o, bits, opa, opb, ofm):
-    """ADD / SUB / MUL: the registers in force against the reference derivation; None or a reason"""
+R_IFM_PRECISION, R_IFM2_BROADCAST = 261, 384
+
+
+def ew_per_tensor(a, c, ifm_is_first, smode, rev, opa, ls):
+    """effective input multipliers (exact fractions, relative to the common left shift) that the programmed registers
+    apply to the FIRST and to the SECOND source tensor, and the reference's (add.cc / sub.cc: scale / (2 * max)).
+    Hardware reading (coq/hw/NpuExec.v): operand A is the IFM2 when the operand order is reversed, else the IFM; scale
+    mode 1 multiplies operand A by the 32-bit OPA pair and only shifts operand B (an exact 1/2), mode 2 the converse."""
+    scaled_is_ifm = (smode == 1) != bool(rev)
+    scaled_is_first = scaled_is_ifm == ifm_is_first
+    pair_val = vela_value(opa) * pow2(-ls)
+    eff = (pair_val, Fraction(1, 2)) if scaled_is_first else (Fraction(1, 2), pair_val)
+    t1, t2, _ = tfl_add_ref(a, c, 1.0, ls)
+    return eff, (tfl_value(t1), tfl_value(t2))
+
+
+def h_elementwise_why(kind, a, c, o, bits, opa, opb, ofm, smode=None, rev=None, ifm_is_first=None):
+    """ADD / SUB / MUL: the registers in force against the reference derivation; None or a reason.
+    a, c: scales of the first and second source tensor"""
     if kind == "MUL":
         refd, reff = tfl_mul_ref(a, c, o)
         if ofm[0] and ofm[1] <= 62 and not (same_value(ofm, refd) or same_value(ofm, reff)):
@@ -673,6 +690,14 @@ def h_elementwise_why(kind, a, c, o, bits, opa, opb, ofm):
             return "OPA_SCALE %r, reference input multiplier %r (left shift %d)" % (opa, tin, ls)
         if ofm[0] and ofm[1] <= 62 and not same_value(ofm, to):
             return "OFM_SCALE %r, reference output multiplier %r" % (ofm, to)
+        if smode is not None and a != c and ifm_is_first is not None and opa[0] and opa[1] + ls <= 62:
+            if smode not in (1, 2):
+                return "advanced scaling (OPB_SCALE 0) but IFM_PRECISION.scale_mode = %d" % smode
+            eff, ref = ew_per_tensor(a, c, ifm_is_first, smode, rev, opa, ls)
+            if eff != ref:
+                return ("scale mode %d with operand order %s applies the input multipliers (%.6g, %.6g) to the (first, second) "
+                        "tensor, the reference derivation gives (%.6g, %.6g)"
+                        % (smode, "reversed" if rev else "plain", float(eff[0]), float(eff[1]), float(ref[0]), float(ref[1])))
         return None
     to = tfl_qm(2.0 * max(a, c) / (65536.0 * o))     # simplified scaling (equal input scales)
     half = 1 << 15 if bits == 8 else 1 << 14
@@ -684,6 +709,28 @@ def h_elementwise_why(kind, a, c, o, bits, opa, opb, ofm):
     if ofm[0] and ofm[1] + k <= 62 and not same_value((ofm[0], ofm[1] + k), to):
         return "OFM_SCALE %r, reference output multiplier %r" % (ofm, to)
     return None
+
+
+def h_custom_nets():
+    """ADD / SUB whose FIRST operand is the broadcast / scalar tensor (Vela runs them with reversed operand order), the
+    broadcast tensor having the larger and the smaller scale, plus the plain order; int8, uint8, int16"""
+    import netgen
+    out = []
+    for dt in ("int8", "uint8", "int16"):
+        for kind in ("ADD", "SUB"):
+            rng = random.Random("c09h-rev/%s/%s/%s" % (dt, kind, vlib.seed()))
+            net = netgen.Net("c09_rev_%s_%s" % (kind.lower(), dt))
+            h, w, c = rng.choice([3, 4, 6]), rng.choice([4, 5, 8]), rng.choice([4, 8, 16])
+            x = netgen._inp(net, rng, [1, h, w, c], dt)
+            big = netgen.const_like(net, rng, [1, 1, 1, c], dt, scale=x.scale * rng.uniform(1.5, 4.0))
+            small = netgen.const_like(net, rng, rng.choice([[1, 1, 1, c], [1, 1, 1, 1]]), dt, scale=x.scale / rng.uniform(1.5, 4.0))
+            outs = [netgen.elementwise(net, rng, kind, big, x, out_shape=[1, h, w, c]),
+                    netgen.elementwise(net, rng, kind, small, x, out_shape=[1, h, w, c]),
+                    netgen.elementwise(net, rng, kind, x, big, out_shape=[1, h, w, c]),
+                    netgen.elementwise(net, rng, kind, x, small, out_shape=[1, h, w, c])]
+            net.output(*outs)
+            out.append(net)
+    return out
 
 
 def h_check(tier, okx):
@@ -702,9 +749,24 @@ def h_check(tier, okx):
             for i in range(n):
                 jobs.append({"family": fam, "seed": "c09h-%d-%d-%d" % (vlib.seed(), rep, i), "args": H_ACCS[(i + rep) % len(H_ACCS)],
                              "capture": True})
+    nets = [None] * len(jobs)
+    ndir = os.path.join(vlib.BUILD, "c09_nets")
+    os.makedirs(ndir, exist_ok=True)
+    for i, net in enumerate(h_custom_nets()):
+        import hashlib
+        data = net.build()
+        sha = hashlib.sha256(data).hexdigest()[:16]
+        path = os.path.join(ndir, "%s_%s.tflite" % (net.name, sha))
+        if not os.path.exists(path):
+            with open(path + ".tmp", "wb") as f:
+                f.write(data)
+            os.replace(path + ".tmp", path)
+        jobs.append({"tflite": path, "sha": sha, "args": H_ACCS[i % len(H_ACCS)], "capture": True, "family": "c09_reversed", "seed": net.name})
+        nets.append(net)
     results = compiles.run_all(jobs, timeout=300)
     dist = {"networks": len(jobs), "decoder": "Npu.decode_stream (extracted)" if okv else "python register walk (build/velaverif unavailable)",
-            "operations_judged": {}, "operations_not_judged": {}, "unmapped_networks": [], "same_multiplier_other_shift": 0}
+            "operations_judged": {}, "operations_not_judged": {}, "unmapped_networks": [], "same_multiplier_other_shift": 0,
+            "add_sub_operand_assignment": {}}
     evals, diffs, bads = 0, [], []
     f32 = lambda v: float(np.float32(v))
     pool_cases, pool_where, q_cases, q_where = [], [], [], []
@@ -720,7 +782,7 @@ def h_check(tier, okx):
             return
         rdir = os.path.join(vlib.ROOT, "replay")
         os.makedirs(rdir, exist_ok=True)
-        src = os.path.join(r["job"]["out_dir"], "model.tflite")
+        src = job.get("tflite") or os.path.join(r["job"]["out_dir"], "model.tflite")
         rp = os.path.join(rdir, "C09-net-%s-%s.tflite" % (job["family"], job["seed"]))
         try:
             shutil.copyfile(src, rp)
@@ -733,12 +795,12 @@ def h_check(tier, okx):
                            "OPB_SCALE": h_pair(regs, K_OPB_SCALE), "reason": why}, **extra),
                      "compiled %s/%s, operation writing %s: %s" % (job["family"], job["seed"], name, why)))
 
-    for job, r in zip(jobs, results):
+    for job, r, net0 in zip(jobs, results, nets):
         a = artefacts.load(r) if r.get("status") == "ok" else None
         if not a or not a["npu"] or not a.get("capture") or len(a["capture"].get("streams", [])) != len(a["npu"]):
             dist["unmapped_networks"].append("%s/%s:%s" % (job["family"], job["seed"], r.get("status")))
             continue
-        net = netgen.generate(job["family"], job["seed"])
+        net = net0 if net0 is not None else netgen.generate(job["family"], job["seed"])
         src = {o["outputs"][0].name: o for o in net.ops if o["outputs"]}
         words = [[int(x) for x in n_["words"]] for n_ in a["npu"]]
         if okv:
@@ -810,7 +872,23 @@ def h_check(tier, okx):
                 elif kind in ("ADD", "SUB", "MUL") and code == OP_ELEMENTWISE and len(ins) == 2 and \
                         cmd.get("original_type", "").endswith(kind.capitalize()):
                     judged(kind)
-                    why = h_elementwise_why(kind, f32(ins[0].scale), f32(ins[1].scale), f32(y.scale), bits, opa, opb, ofm)
+                    smode = (regs.get(R_IFM_PRECISION, 0) >> 8) & 3
+                    rev = (regs.get(R_IFM2_BROADCAST, 0) >> 6) & 1
+                    # which source tensor is the IFM: by the scales of the feature maps handed to the command stream generator
+                    qa = ((api.get("ifm") or {}).get("quantization") or {}).get("scale_f32")
+                    qb = ((api.get("ifm2") or {}).get("quantization") or {}).get("scale_f32")
+                    a_, c_ = f32(ins[0].scale), f32(ins[1].scale)
+                    ifm_is_first = None
+                    if qa is not None and qb is not None and a_ != c_:
+                        if (f32(qa), f32(qb)) == (a_, c_):
+                            ifm_is_first = True
+                        elif (f32(qa), f32(qb)) == (c_, a_):
+                            ifm_is_first = False
+                    if kind != "MUL" and opb[0] == 0 and ifm_is_first is not None:
+                        kk = "%s order, %s, pair to the %s tensor" % ("reversed" if rev else "plain", ins[0].dtype,
+                                                                       "smaller-scale" if ((smode == 1) != bool(rev)) == (ifm_is_first == (a_ < c_)) else "LARGER-scale")
+                        dist["add_sub_operand_assignment"][kk] = dist["add_sub_operand_assignment"].get(kk, 0) + 1
+                    why = h_elementwise_why(kind, a_, c_, f32(y.scale), bits, opa, opb, ofm, smode, rev, ifm_is_first)
                     if why:
                         report("inforce-" + ("MUL" if kind == "MUL" else "ADDSUB"), job, r, net, co, regs, "%s: %s" % (kind, why), extra)
                 else:
@@ -1224,6 +1302,7 @@ def run(tier):
                              "gives %r; accumulator %d -> %d, round-half-up division gives %d"
                              % (h, w, stype, s, sh, ref, acc, hw_scale(acc, s, sh), (2 * acc + n) // (2 * n)))
     ops = [(api.NpuElementWiseOp.ADD, "ADD"), (api.NpuElementWiseOp.SUB, "SUB"), (api.NpuElementWiseOp.MUL, "MUL")]
+    rev_cases, rev_impl = [], []
     for stype in ("float", "float32"):
         for i in range(120 if not thorough else 1500):
             eop, ename = ops[i % 3]
@@ -1236,9 +1315,14 @@ def run(tier):
             cv = (lambda x: np.float32(x)) if stype == "float32" else (lambda x: x)
             op = api.NpuElementWiseOperation(eop)
             op.ifm, op.ifm2, op.ofm = _fm(api, dt, cv(a)), _fm(api, dt, cv(c)), _fm(api, dt, cv(o))
+            rev = (i // 3) % 2 == 1         # the API attribute reversed_operands: operand A is then the IFM2
+            op.reversed_operands = rev
             em = _Emit()
             ots = rcsg.generate_scaling_for_elementwise(em, op)
             site_n += 1
+            if ename != "MUL" and int(ots) != 0:
+                rev_cases.append(decomp(a) + decomp(c) + (1 if rev else 0,))
+                rev_impl.append(int(ots))
             ofm = em.regs["NPU_SET_OFM_SCALE"]
             why = None
             if ename == "MUL":
@@ -1257,6 +1341,15 @@ def run(tier):
                         why = "OPA_SCALE %r, reference input multiplier %r (left shift %d)" % (opa, tin, ls)
                     elif ofm[0] and ofm[1] <= 62 and not same_value(ofm, to):
                         why = "OFM_SCALE %r, reference output multiplier %r" % (ofm, to)
+                    elif a != c and opa[0] and opa[1] + ls <= 62:
+                        # which tensor the pair reaches: the returned value becomes IFM_PRECISION.scale_mode.  In source
+                        # order the first tensor is operand A = the IFM2 when reversed
+                        first, second = (c, a) if rev else (a, c)
+                        eff, ref = ew_per_tensor(first, second, not rev, int(ots), rev, opa, ls)
+                        if eff != ref:
+                            why = ("scale mode %d with %s operand order applies the input multipliers (%.6g, %.6g) to the (first, second) "
+                                   "tensor, the reference derivation gives (%.6g, %.6g)"
+                                   % (int(ots), "reversed" if rev else "plain", float(eff[0]), float(eff[1]), float(ref[0]), float(ref[1])))
                 else:                     # simplified scaling: inputs scaled by 1/2 * 2^16, output by 2 s / (out * 2^16)
                     to = tfl_qm(2.0 * max(a, c) / (65536.0 * o))
                     half = 1 << 15 if bits == 8 else 1 << 14
@@ -1267,9 +1360,14 @@ def run(tier):
                         why = "OFM_SCALE %r, reference output multiplier %r" % (ofm, to)
             if why:
                 note_bad("site-elementwise-%s-%s" % (stype, "MUL" if ename == "MUL" else "ADDSUB"),
-                         {"site": "generate_scaling_for_elementwise", "scale_type": stype, "op": ename, "scales": [a.hex(), c.hex(), o.hex()]},
+                         {"site": "generate_scaling_for_elementwise", "scale_type": stype, "op": ename, "scales": [a.hex(), c.hex(), o.hex()],
+                          "reversed_operands": bool(rev)},
                          {"op": ename, "scales": [a, c, o], "data_type": str(dt), "registers": em.regs, "reason": why, "numpy": np.__version__},
                          "generate_scaling_for_elementwise %s, %s tensor scales (%r, %r, %r): %s" % (ename, stype, a, c, o, why))
+    # the choice of the scale mode (op_to_scale and its exchange for reversed operands) against the model
+    for c_, im, o_ in zip(rev_cases, rev_impl, model("ew_scale_mode", rev_cases)):
+        if okx and im != o_[0]:
+            diffs.append(("ew_scale_mode (generate_scaling_for_elementwise)", {"ifm": c_[0:2], "ifm2": c_[2:4], "reversed": c_[4]}, im, o_))
     evals += site_n
     lap('F')
     dist["call_sites"] = {"evaluations": site_n, "scale_types": ["float", "float32"]}
